@@ -846,6 +846,8 @@ func (r *vsRun) runFree(head []string, rng *vsRng) []string {
 	scripts := [2][]vsCall{vsParseScript(head[2]), vsParseScript(head[4])}
 	var evmu sync.Mutex
 	var rows []string
+	// rows are appended in real time: a call's start, its end, the cancellation; what reached the fakes since
+	// the previous row goes into the row's third field (so it is ordered before the row's own event)
 	emit := func(op, out string) {
 		evmu.Lock()
 		rows = append(rows, op+" ; "+out+" ; "+strings.Join(s.takeObs(), " "))
@@ -874,15 +876,16 @@ func (r *vsRun) runFree(head []string, rng *vsRng) []string {
 				stmu.Lock()
 				state[t] = "inwait"
 				stmu.Unlock()
+				emit(fmt.Sprintf("%d begin %s", t, tok), "")
 				kind, val := env.perform(t, c)
+				rep := vsRepString(vsReport{kind: kind, val: val})
+				emit(fmt.Sprintf("%d end", t), rep)
 				stmu.Lock()
 				state[t] = "idle"
 				if kind == "panic" {
 					state[t] = "dead"
 				}
 				stmu.Unlock()
-				rep := vsRepString(vsReport{kind: kind, val: val})
-				emit(fmt.Sprintf("%d call %s", t, tok), rep)
 				if kind == "panic" {
 					return
 				}
@@ -1103,7 +1106,9 @@ func vsRandomUnary(rng *vsRng) string {
 }
 
 // ---------------------------------------------------------------- driver
-func vsReadHistories(paths string) [][][]string {
+// vsEachHistory streams the histories of the colon-separated files/directories
+// (only the part of each line before the first ';' is read).
+func vsEachHistory(paths string, f func(h [][]string)) {
 	var files []string
 	for _, p := range strings.Split(paths, ":") {
 		if p == "" {
@@ -1117,12 +1122,12 @@ func vsReadHistories(paths string) [][][]string {
 			files = append(files, p)
 		}
 	}
-	var hs [][][]string
-	for _, f := range files {
-		fh, err := os.Open(f)
+	for _, file := range files {
+		fh, err := os.Open(file)
 		if err != nil {
 			continue
 		}
+		var cur [][]string
 		sc := bufio.NewScanner(fh)
 		sc.Buffer(make([]byte, 1<<20), 1<<20)
 		for sc.Scan() {
@@ -1138,14 +1143,19 @@ func vsReadHistories(paths string) [][][]string {
 				continue
 			}
 			if toks[0] == "H" {
-				hs = append(hs, [][]string{toks})
-			} else if len(hs) > 0 {
-				hs[len(hs)-1] = append(hs[len(hs)-1], toks)
+				if cur != nil {
+					f(cur)
+				}
+				cur = [][]string{toks}
+			} else if cur != nil {
+				cur = append(cur, toks)
 			}
+		}
+		if cur != nil {
+			f(cur)
 		}
 		fh.Close()
 	}
-	return hs
 }
 
 func TestVerifStream(t *testing.T) {
@@ -1171,7 +1181,7 @@ func TestVerifStream(t *testing.T) {
 	defer w.Flush()
 
 	r := &vsRun{out: w}
-	for _, h := range vsReadHistories(os.Getenv("VERIF_HIST")) {
+	vsEachHistory(os.Getenv("VERIF_HIST"), func(h [][]string) {
 		head := h[0]
 		if len(head) >= 2 && head[1] == "U" {
 			fields := map[string]string{}
@@ -1181,7 +1191,7 @@ func TestVerifStream(t *testing.T) {
 				}
 			}
 			fmt.Fprintf(w, "%s ; %s ;\n", strings.Join(head, " "), vsUnaryCase(fields))
-			continue
+			return
 		}
 		var lines []string
 		if nogate {
@@ -1192,7 +1202,7 @@ func TestVerifStream(t *testing.T) {
 		for _, l := range lines {
 			fmt.Fprintln(w, l)
 		}
-	}
+	})
 	for i := 0; i < nUnary; i++ {
 		line := vsRandomUnary(rng)
 		head := strings.Fields(line)
